@@ -210,8 +210,11 @@ CHECKS = {
              "pairs and all addon1 x addon2 behaviour pairs, through the real MITMProxyEventManager.pump_proxy_event: the number of ('callback', id, state) items per flow "
              "is checked against an ownership log (exactly one, immediately unless taken, else exactly at resume) and two later events of another flow are pumped. Every "
              "get_state/from_state transfer (direct and pickled) over kinds x 2 sessions x 2 colliding regions x flags x modification subsets; every item sequence up to "
-             "length 3 (4 thorough) through the real IPCInterceptionAddon._pump_callbacks counting resume() calls.",
-        note="A taken, never-resumed flow stays with its taker; faults are Python exceptions at the listed points; pickling/OS-queue failure, a real mitmproxy master, TLS "
+             "length 3 (4 thorough) through the real IPCInterceptionAddon._pump_callbacks counting resume() calls. Owners that acquire the flow through "
+             "wait_for() / subscribe_async() on the session- and region-level http_message_handler (default take) and take=False observers (3,168 cases); cap "
+             "attribution (name, type, base URL, session id, region address) of the handed-back state on the request and the response leg for viewer, browser and "
+             "the proxy's own (X-Hippo-Injected) requests against an independent cap table.",
+        note="Waiter ownership is taken from the public contract (dispatched to a default-take waiter means owned until its resume()). A taken, never-resumed flow stays with its taker; faults are Python exceptions at the listed points; pickling/OS-queue failure, a real mitmproxy master, TLS "
              "and sockets are out of scope; mitmproxy.ctx.master stubbed for replay/shutdown; ownership is per flow (first successful take() until the one successful resume()); "
              "includes the owner of a taken flow's cap data (region/session) being dropped and garbage-collected before release; wrapper-cap requests: an addon's "
              "rewrite of path/query/URL must survive the event manager's own redirect, in both the 307 and the URL-rewrite strategy."),
@@ -233,13 +236,15 @@ CHECKS = {
                   "states, determinism rechecks) against a plain reference model",
         text="BFS over the real HippoClientProtocol.datagram_received, Session and Region handlers, Circuit and the resend task: every history up to 7 events (quick 5) "
              "with at most 3 deviations over peer packets id 1..3 x chat/ping x reliable/RESENT/duplicate/out-of-order/task-deferral, both ack forms for every subset of "
-             "outstanding ids plus stale and future ids, client reliable and unreliable sends, and ticks short of, past and across the retry budget, in four "
-             "subscriber/circuit configurations (solo; shared Event; peer traffic on a not-yet-alive circuit across the handshake-completes transition; "
+             "outstanding ids plus stale and future ids, client reliable and unreliable sends, and ticks short of, past and across the retry budget, in five "
+             "subscriber/circuit configurations (a region unregistered and registered again at the same address with traffic on both sides; solo; shared Event; peer traffic on a not-yet-alive circuit across the handshake-completes transition; "
              "self-unsubscribing subscribers -- wait_for, one_shot, handler returning True -- registered ahead of persistent ones on every Event at both levels; all "
              "asserted), plus PacketAck datagrams carrying body and appended ids in every "
              "split and client sends of Messages with a preset packet_id (0, last, last-1, last+50, a received message echoed back). Twelve oracle clauses against a reference model (always ack, dispatch at most once "
-             "per subscriber incl. region level, unreliable always delivered, completion exactly on ack, failure exactly at budget, ids strictly increasing).",
-        note="One region; at most 2 reliable and 1 unreliable client sends per history; a peer never reuses a packet id for a different message; acks and ping replies "
+             "per subscriber incl. region level, unreliable always delivered, completion exactly on ack, failure exactly at budget, ids strictly increasing). Plus a bounded-exhaustive dedupe-window family: reliable ids x bursts of W-1, W, W+1 unreliable packets x "
+             "retransmission with / without RESENT, W measured behaviourally through Circuit.track_reliable (1000).",
+        note="Each re-registration restarts ids and the pre-re-registration history is kept in the state identity; only unreliable traffic may lie between a reliable "
+             "packet and its retransmission in the window family (more than W reliable packets in between is out of scope: bounded memory). One region; at most 2 reliable and 1 unreliable client sends per history; a peer never reuses a packet id for a different message; acks and ping replies "
              "are demanded by the next loop quiescence; one 0.5 s resend-poll period of lateness allowed, never earliness; retry budget and interval read from the code; "
              "hmc.refwire and a 20-line header decoder trusted; template mtime reload disabled and MessageDotXML memoised by the harness; connect() itself needs HTTP "
              "and is not executed: its is_alive flip and its wait_for are reproduced by the harness; the pre-handshake and self-unsubscribe configurations run one "
